@@ -404,6 +404,24 @@ fn random_case(cx: &mut CaseCtx, input: Input, cfg: &crate::gen::GenCfg) -> Case
         cx.label("skipped-suppression-makes-ill-formed");
         return Ok(());
     }
+    // now and then an attribute with a malformed argument list (an error) on some element, before
+    // or after the suppressions in parse order: the lints that are still produced are silenced as before
+    let with_error = pick(&mut u, 4) == 3; // (an exhausted input reads as 0: no error then)
+    if with_error {
+        let (path, _kind) = victims[pick(&mut u, victims.len())].clone();
+        let bad = if pick(&mut u, 2) == 0 { AttrM::new("deprecated", &["a", "b"]) } else { AttrM::new("allow", &[]) };
+        let at_front = pick(&mut u, 2) == 0;
+        for p in [&mut p0, &mut p1] {
+            if let Some(pre) = crate::c16::victim_prelude(p, &path) {
+                if at_front {
+                    pre.attrs.insert(0, bad.clone());
+                } else {
+                    pre.attrs.push(bad.clone());
+                }
+            }
+        }
+        cx.label("random/with-an-erroneous-attribute");
+    }
     cx.set_key(&(&p1, &cli));
     let (texts0, _r0) = crate::c02::render_layout(&p0, lay_bytes, 1);
     let (texts1, rendered1) = crate::c02::render_layout(&p1, lay_bytes, 1);
@@ -434,13 +452,13 @@ fn random_case(cx: &mut CaseCtx, input: Input, cfg: &crate::gen::GenCfg) -> Case
                 src()
             );
         }
-        return Ok(());
     }
+    let base_has_errors = d0.iter().any(|d| d.level == "error");
     // nothing else changes: same diagnostics (code, message) in the same order
     let a: Vec<(&str, &str)> = d1.iter().map(|d| (d.code.as_str(), d.message.as_str())).collect();
     let b: Vec<(&str, &str)> = d0.iter().map(|d| (d.code.as_str(), d.message.as_str())).collect();
     check!(a == b, "random/suppression-changed-other-diagnostics", "with: {a:?}\nwithout: {b:?}\n{}", src());
-    for d in &d0 {
+    for d in d0.iter().filter(|d| d.level != "error") {
         check!(d.level == "warning", format!("random/base-level/{}", d.code), "without any suppression {} has level {}\n{}", d.code, d.level, src());
     }
     // levels by the statement's predicate
@@ -503,6 +521,10 @@ fn random_case(cx: &mut CaseCtx, input: Input, cfg: &crate::gen::GenCfg) -> Case
     cx.nontrivial = lints >= 1;
     cx.label_if(lints >= 3, "random/three-or-more-lints");
     cx.label_if(silenced >= 1 && silenced < lints, "random/some-silenced-some-not");
+    cx.label_if(base_has_errors && lints >= 1, "random/lints-judged-next-to-an-error");
+    if base_has_errors {
+        return Ok(());
+    }
     // the AST differs only by the added attributes
     let mut s1 = observed1;
     strip_allow(&mut s1);
@@ -661,6 +683,7 @@ impl Check for C13 {
             "random/IncorrectDocComment/allowed",
             "random/MalformedDocComment/warning",
             "random/some-silenced-some-not",
+            "random/lints-judged-next-to-an-error",
             "placement:other-file",
             "argument:two-attributes-other-then-that",
             "decoy-allow-closer-to-the-site",
